@@ -28,11 +28,19 @@ impl<'b, C> minicbor::Decode<'b, C> for Raw {
     }
 }
 
-pub struct ASrc { pub data: [u8; S], pub end: usize, pub pos: usize, pub max_reads: u8, pub completed: u8, pub saw_err: bool, pub saw_eof: bool, pub saw_pending: bool }
+/// `script`: None = every outcome symbolic; Some(s) = the i-th poll_read call has the CONCRETE outcome
+/// s[i] (0 Pending, 1 transient error, 2 one byte, 3 as many bytes as fit (<= 4), 4 the stream ends here),
+/// calls beyond the script are Pending.
+pub struct ASrc { pub data: [u8; S], pub end: usize, pub pos: usize, pub max_reads: u8, pub completed: u8, pub saw_err: bool, pub saw_eof: bool, pub saw_pending: bool,
+                  pub script: Option<[u8; 3]>, pub calls: u8 }
 
 impl AsyncRead for ASrc {
     fn poll_read(mut self: Pin<&mut Self>, _cx: &mut Context<'_>, buf: &mut [u8]) -> Poll<io::Result<usize>> {
-        let c: u8 = kani::any();
+        let c: u8 = match self.script {
+            None => kani::any(),
+            Some(sc) => { let i = self.calls as usize; self.calls += 1; if i < 3 { sc[i] } else { 0 } }
+        };
+        if self.script.is_some() && c == 4 { self.end = self.pos }
         if self.completed >= self.max_reads || c == 0 { self.saw_pending = true; return Poll::Pending }
         if c == 1 { self.saw_err = true; return Poll::Ready(Err(io::ErrorKind::ConnectionReset.into())) }
         let rem = self.end - self.pos;
@@ -66,7 +74,9 @@ fn inv(read_val: bool, lenb: &[u8; 4], o: usize, buffer: &[u8], data: &[u8; S], 
 
 /// One poll + drop from the Inv pre-state (`READ_VAL`, `O`): the state family and offset are fixed per
 /// harness (nine harnesses cover every Inv state), everything else is symbolic.
-fn step<const READ_VAL: bool, const O: usize, const READS: u8>() {
+fn step<const READ_VAL: bool, const O: usize, const READS: u8>() { step_core::<READ_VAL, O, READS>(None) }
+
+fn step_core<const READ_VAL: bool, const O: usize, const READS: u8>(script: Option<[u8; 3]>) {
     let p: [u8; 2] = kani::any();
     let data: [u8; S] = [0, 0, 0, 2, p[0], p[1], 0, 0];
     // arbitrary pre-state satisfying Inv
@@ -88,9 +98,9 @@ fn step<const READ_VAL: bool, const O: usize, const READS: u8>() {
         while i < 2 { buffer.push(if i < o { data[4 + i] } else { junk[i] }); i += 1; }
         srcpos = 4 + o;
     }
-    let end: usize = kani::any();
+    let end: usize = if script.is_some() { 6 } else { kani::any() };
     kani::assume(end >= srcpos && end <= 6);
-    let src = ASrc { data, end, pos: srcpos, max_reads: READS, completed: 0, saw_err: false, saw_eof: false, saw_pending: false };
+    let src = ASrc { data, end, pos: srcpos, max_reads: READS, completed: 0, saw_err: false, saw_eof: false, saw_pending: false, script, calls: 0 };
     let mut r = AsyncReader::__verif_from_parts(src, buffer, 4, read_val, lenb, o);
     let waker = noop_waker();
     let mut cx = Context::from_waker(&waker);
@@ -101,6 +111,7 @@ fn step<const READ_VAL: bool, const O: usize, const READS: u8>() {
     };
     let (post_rv, post_lenb, post_o) = r.__verif_state();
     let spos = r.reader().pos;
+    let end = r.reader().end;
     match &res {
         Poll::Ready(Ok(Some(v))) => {
             assert!(v.len == 2 && v.b0 == p[0] && v.b1 == p[1], "returned payload is not the frame's payload (torn / duplicated bytes)");
@@ -128,8 +139,10 @@ fn step<const READ_VAL: bool, const O: usize, const READS: u8>() {
     }
     // a transient error is reported exactly when the source produced one
     if r.reader().saw_err { assert!(matches!(res, Poll::Ready(Err(Error::Io(_))))) }
-    kani::cover!(matches!(res, Poll::Ready(Ok(Some(_)))) || (READS < 2 && !(READ_VAL && O >= 1)), "the frame can be completed from this state");
-    kani::cover!(matches!(res, Poll::Pending) || (READ_VAL && O == 2), "Pending reachable (except when the frame is already complete)");
+    // (disjunctions, not branches: a cover in a branch the concrete script folds away is reported unreachable)
+    kani::cover!(script.is_some() || matches!(res, Poll::Ready(Ok(Some(_)))) || (READS < 2 && !(READ_VAL && O >= 1)), "the frame can be completed from this state");
+    kani::cover!(script.is_some() || matches!(res, Poll::Pending) || (READ_VAL && O == 2), "Pending reachable (except when the frame is already complete)");
+    kani::cover!(script.is_none() || r.reader().calls >= 1, "the scripted source is read at least once");
     core::mem::forget(r);
 }
 
@@ -146,11 +159,119 @@ step_h!(6; c15_q_step_readlen_0 false, 0, 1; c15_q_step_readlen_1 false, 1, 1; c
 step_h!(7; c15_t_step_readlen_0 false, 0, 2; c15_t_step_readlen_1 false, 1, 2; c15_t_step_readlen_2 false, 2, 2; c15_t_step_readlen_3 false, 3, 2;
         c15_t_step_readlen_4 false, 4, 2; c15_t_step_readval_0 true, 0, 2; c15_t_step_readval_1 true, 1, 2; c15_t_step_readval_2 true, 2, 2);
 
+macro_rules! step_s { ($($name:ident $rv:expr, $o:expr, $sc:expr);*) => { $(
+    #[kani::proof]
+    #[kani::unwind(6)]
+    #[kani::stub(std::vec::Vec::resize, crate::models::vec_resize)]
+    pub fn $name() { step_core::<$rv, $o, 3>(Some($sc)) } )* } }
+// Scripted source: every read outcome of the poll is CONCRETE (payload and stale bytes stay symbolic), so the
+// control flow folds and a poll may complete up to three reads.  quick: 8 (state, script) pairs where progress
+// made inside one poll is followed by an interruption; thorough: every [data, x] script from every state and
+// the one-byte-at-a-time scripts [k1, k1, x].
+step_s!(c15_q_s_rl0_k1_p false, 0, [2, 0, 0];
+        c15_q_s_rl2_kx_e false, 2, [3, 1, 0];
+        c15_q_s_rl3_k1_p false, 3, [2, 0, 0];
+        c15_q_s_rl3_kx_e false, 3, [3, 1, 0];
+        c15_q_s_rl4_k1_p false, 4, [2, 0, 0];
+        c15_q_s_rv0_k1_p true, 0, [2, 0, 0];
+        c15_q_s_rv0_k1_e true, 0, [2, 1, 0];
+        c15_q_s_rv1_k1_z true, 1, [2, 4, 0]);
+step_s!(c15_t_s_rl0_k1_e false, 0, [2, 1, 0];
+        c15_t_s_rl0_k1_k1 false, 0, [2, 2, 0];
+        c15_t_s_rl0_k1_kx false, 0, [2, 3, 0];
+        c15_t_s_rl0_k1_z false, 0, [2, 4, 0];
+        c15_t_s_rl0_kx_p false, 0, [3, 0, 0];
+        c15_t_s_rl0_kx_e false, 0, [3, 1, 0];
+        c15_t_s_rl0_kx_k1 false, 0, [3, 2, 0];
+        c15_t_s_rl0_kx_kx false, 0, [3, 3, 0];
+        c15_t_s_rl0_kx_z false, 0, [3, 4, 0];
+        c15_t_s_rl1_k1_p false, 1, [2, 0, 0];
+        c15_t_s_rl1_k1_e false, 1, [2, 1, 0];
+        c15_t_s_rl1_k1_k1 false, 1, [2, 2, 0];
+        c15_t_s_rl1_k1_kx false, 1, [2, 3, 0];
+        c15_t_s_rl1_k1_z false, 1, [2, 4, 0];
+        c15_t_s_rl1_kx_p false, 1, [3, 0, 0];
+        c15_t_s_rl1_kx_e false, 1, [3, 1, 0];
+        c15_t_s_rl1_kx_k1 false, 1, [3, 2, 0];
+        c15_t_s_rl1_kx_kx false, 1, [3, 3, 0];
+        c15_t_s_rl1_kx_z false, 1, [3, 4, 0];
+        c15_t_s_rl2_k1_p false, 2, [2, 0, 0];
+        c15_t_s_rl2_k1_e false, 2, [2, 1, 0];
+        c15_t_s_rl2_k1_k1 false, 2, [2, 2, 0];
+        c15_t_s_rl2_k1_kx false, 2, [2, 3, 0];
+        c15_t_s_rl2_k1_z false, 2, [2, 4, 0];
+        c15_t_s_rl2_kx_p false, 2, [3, 0, 0];
+        c15_t_s_rl2_kx_k1 false, 2, [3, 2, 0];
+        c15_t_s_rl2_kx_kx false, 2, [3, 3, 0];
+        c15_t_s_rl2_kx_z false, 2, [3, 4, 0];
+        c15_t_s_rl3_k1_e false, 3, [2, 1, 0];
+        c15_t_s_rl3_k1_k1 false, 3, [2, 2, 0];
+        c15_t_s_rl3_k1_kx false, 3, [2, 3, 0];
+        c15_t_s_rl3_k1_z false, 3, [2, 4, 0];
+        c15_t_s_rl3_kx_p false, 3, [3, 0, 0];
+        c15_t_s_rl3_kx_k1 false, 3, [3, 2, 0];
+        c15_t_s_rl3_kx_kx false, 3, [3, 3, 0];
+        c15_t_s_rl3_kx_z false, 3, [3, 4, 0];
+        c15_t_s_rl4_k1_e false, 4, [2, 1, 0];
+        c15_t_s_rl4_k1_k1 false, 4, [2, 2, 0];
+        c15_t_s_rl4_k1_kx false, 4, [2, 3, 0];
+        c15_t_s_rl4_k1_z false, 4, [2, 4, 0];
+        c15_t_s_rl4_kx_p false, 4, [3, 0, 0];
+        c15_t_s_rl4_kx_e false, 4, [3, 1, 0];
+        c15_t_s_rl4_kx_k1 false, 4, [3, 2, 0];
+        c15_t_s_rl4_kx_kx false, 4, [3, 3, 0];
+        c15_t_s_rl4_kx_z false, 4, [3, 4, 0];
+        c15_t_s_rv0_k1_k1 true, 0, [2, 2, 0];
+        c15_t_s_rv0_k1_kx true, 0, [2, 3, 0];
+        c15_t_s_rv0_k1_z true, 0, [2, 4, 0];
+        c15_t_s_rv0_kx_p true, 0, [3, 0, 0];
+        c15_t_s_rv0_kx_e true, 0, [3, 1, 0];
+        c15_t_s_rv0_kx_k1 true, 0, [3, 2, 0];
+        c15_t_s_rv0_kx_kx true, 0, [3, 3, 0];
+        c15_t_s_rv0_kx_z true, 0, [3, 4, 0];
+        c15_t_s_rv1_k1_p true, 1, [2, 0, 0];
+        c15_t_s_rv1_k1_e true, 1, [2, 1, 0];
+        c15_t_s_rv1_k1_k1 true, 1, [2, 2, 0];
+        c15_t_s_rv1_k1_kx true, 1, [2, 3, 0];
+        c15_t_s_rv1_kx_p true, 1, [3, 0, 0];
+        c15_t_s_rv1_kx_e true, 1, [3, 1, 0];
+        c15_t_s_rv1_kx_k1 true, 1, [3, 2, 0];
+        c15_t_s_rv1_kx_kx true, 1, [3, 3, 0];
+        c15_t_s_rv1_kx_z true, 1, [3, 4, 0];
+        c15_t_s_rl0_k1_k1_p false, 0, [2, 2, 0];
+        c15_t_s_rl0_k1_k1_e false, 0, [2, 2, 1];
+        c15_t_s_rl0_k1_k1_k1 false, 0, [2, 2, 2];
+        c15_t_s_rl0_k1_k1_z false, 0, [2, 2, 4];
+        c15_t_s_rl1_k1_k1_p false, 1, [2, 2, 0];
+        c15_t_s_rl1_k1_k1_e false, 1, [2, 2, 1];
+        c15_t_s_rl1_k1_k1_k1 false, 1, [2, 2, 2];
+        c15_t_s_rl1_k1_k1_z false, 1, [2, 2, 4];
+        c15_t_s_rl2_k1_k1_p false, 2, [2, 2, 0];
+        c15_t_s_rl2_k1_k1_e false, 2, [2, 2, 1];
+        c15_t_s_rl2_k1_k1_k1 false, 2, [2, 2, 2];
+        c15_t_s_rl2_k1_k1_z false, 2, [2, 2, 4];
+        c15_t_s_rl3_k1_k1_p false, 3, [2, 2, 0];
+        c15_t_s_rl3_k1_k1_e false, 3, [2, 2, 1];
+        c15_t_s_rl3_k1_k1_k1 false, 3, [2, 2, 2];
+        c15_t_s_rl3_k1_k1_z false, 3, [2, 2, 4];
+        c15_t_s_rl4_k1_k1_p false, 4, [2, 2, 0];
+        c15_t_s_rl4_k1_k1_e false, 4, [2, 2, 1];
+        c15_t_s_rl4_k1_k1_k1 false, 4, [2, 2, 2];
+        c15_t_s_rl4_k1_k1_z false, 4, [2, 2, 4];
+        c15_t_s_rv0_k1_k1_p true, 0, [2, 2, 0];
+        c15_t_s_rv0_k1_k1_e true, 0, [2, 2, 1];
+        c15_t_s_rv0_k1_k1_k1 true, 0, [2, 2, 2];
+        c15_t_s_rv0_k1_k1_z true, 0, [2, 2, 4];
+        c15_t_s_rv1_k1_k1_p true, 1, [2, 2, 0];
+        c15_t_s_rv1_k1_k1_e true, 1, [2, 2, 1];
+        c15_t_s_rv1_k1_k1_k1 true, 1, [2, 2, 2];
+        c15_t_s_rv1_k1_k1_z true, 1, [2, 2, 4]);
+
 /// Base case: a new reader satisfies Inv at a frame boundary.
 #[kani::proof]
 pub fn c15_new_reader_satisfies_inv() {
     let data = [0u8; S];
-    let src = ASrc { data, end: 0, pos: 0, max_reads: 1, completed: 0, saw_err: false, saw_eof: false, saw_pending: false };
+    let src = ASrc { data, end: 0, pos: 0, max_reads: 1, completed: 0, saw_err: false, saw_eof: false, saw_pending: false, script: None, calls: 0 };
     let r = AsyncReader::new(src);
     let (rv, lenb, o) = r.__verif_state();
     assert!(inv(rv, &lenb, o, r.__verif_buffer(), &data, 0));
